@@ -121,14 +121,20 @@ fn v_enc<T: Message + Default + Clone + Glue>(s: &Arc<Schema>, m: &DynMsg, o: &m
 }
 
 fn v_dec<T: Message + Default + Clone + Glue>(s: &Arc<Schema>, i: usize, input: Vec<u8>, o: &mut Oracle) -> String {
-    let emitted = T::decode(Bytes::from(input.clone())).map(|t| (to_dyn(&t, s), 0));
+    let buf = Bytes::from(input.clone());
+    let (res, alloc, dt) = crate::measured(|| T::decode(buf));
+    crate::check_bounded(o, "decode", input.len(), alloc, dt);
+    let emitted = res.map(|t| (to_dyn(&t, s), 0));
     let dynamic = DynMsg::decode_dyn(s, i, false, Bytes::from(input)).map(|m| (m, 0));
     finish(false, s, emitted, dynamic, o)
 }
 
 fn v_mrg<T: Message + Default + Clone + Glue>(s: &Arc<Schema>, m: &DynMsg, input: Vec<u8>, o: &mut Oracle) -> String {
     let Some(mut t) = build::<T>(m) else { return "bad-request".into() };
-    let emitted = t.merge(Bytes::from(input.clone())).map(|_| (to_dyn(&t, s), 0));
+    let buf = Bytes::from(input.clone());
+    let (res, alloc, dt) = crate::measured(|| t.merge(buf));
+    crate::check_bounded(o, "merge", input.len(), alloc, dt);
+    let emitted = res.map(|_| (to_dyn(&t, s), 0));
     let mut d = m.clone();
     let dynamic = d.merge(Bytes::from(input)).map(|_| (d, 0));
     finish(false, s, emitted, dynamic, o)
@@ -136,7 +142,9 @@ fn v_mrg<T: Message + Default + Clone + Glue>(s: &Arc<Schema>, m: &DynMsg, input
 
 fn v_dld<T: Message + Default + Clone + Glue>(s: &Arc<Schema>, i: usize, input: Vec<u8>, o: &mut Oracle) -> String {
     let mut b = Bytes::from(input.clone());
-    let emitted = T::decode_length_delimited(&mut b).map(|t| (to_dyn(&t, s), b.remaining()));
+    let (res, alloc, dt) = crate::measured(|| T::decode_length_delimited(&mut b));
+    crate::check_bounded(o, "decode_length_delimited", input.len(), alloc, dt);
+    let emitted = res.map(|t| (to_dyn(&t, s), b.remaining()));
     let dynamic = DynMsg::decode_ld_dyn(s, i, false, Bytes::from(input));
     finish(true, s, emitted, dynamic, o)
 }
